@@ -343,6 +343,7 @@ func c36One(c *verifrt.Case, r *verifrt.R, rng *rand.Rand, k int, ev map[string]
 	ev["txt_strings_255"] += int64(g.txt255)
 	ev["txt_strings_empty"] += int64(g.txtEmpty)
 	ev["rdata_16k_to_65535"] += int64(g.bigRData)
+	ev["fresh_name_aimed_at_offset_0x4000"] += int64(g.aimed)
 	if k < 2 && c.Index == 0 && packed != nil {
 		s := m.summary()
 		s["pack_bytes"] = hexHead(packed)
